@@ -60,6 +60,43 @@ def locked(name):
             fcntl.flock(f, fcntl.LOCK_UN)
 
 
+_design_lock = [None]
+
+
+def design_session():
+    """coq/gen/*.v (the Verilog designs as Coq data) is one shared, mutable directory, and every extracted engine and
+    every RTL proof is built from it.  A check therefore holds a SHARED lock on it for its whole life, and the directory
+    is stamped with the identity (path + content hash of the Verilog sources and of the translator) of the tree it was
+    generated from.  A check whose tree has another identity (a scratch worktree given by HEX_REPO, or /repo after an
+    edit) takes the lock EXCLUSIVELY, regenerates, stamps, and only then shares it.  So two runs against different
+    trees never see each other's designs, and a design left behind by an earlier run is never judged."""
+    if _design_lock[0] is not None:
+        return
+    import vl2coq
+    os.makedirs(WORK, exist_ok=True)
+    srcs = sorted(set(os.path.join(REPO, p) for t in vl2coq.TARGETS.values() for p in t[2]))
+    ident = os.path.realpath(REPO) + ' ' + file_hash([p for p in srcs if os.path.exists(p)] + [os.path.join(ROOT, 'tools', 'vl2coq.py')],
+                                                      '|'.join(p for p in srcs if not os.path.exists(p)))
+    stamp = os.path.join(WORK, 'design.stamp')
+    f = open(os.path.join(WORK, 'design.lock'), 'w')
+    gen_ok = lambda: all(os.path.exists(os.path.join(COQ, 'gen', t[0])) for t in vl2coq.TARGETS.values())
+    while True:
+        fcntl.flock(f, fcntl.LOCK_SH)
+        if os.path.exists(stamp) and open(stamp).read() == ident and gen_ok():
+            break
+        fcntl.flock(f, fcntl.LOCK_UN)
+        fcntl.flock(f, fcntl.LOCK_EX)
+        if not (os.path.exists(stamp) and open(stamp).read() == ident and gen_ok()):
+            if os.path.exists(stamp):
+                os.remove(stamp)
+            vl2coq.generate_all()
+            with open(stamp + '.tmp', 'w') as g:
+                g.write(ident)
+            os.rename(stamp + '.tmp', stamp)
+        fcntl.flock(f, fcntl.LOCK_UN)
+    _design_lock[0] = f
+
+
 _scratch_dirs = []
 
 
@@ -333,6 +370,7 @@ class Check:
         self.replay_arg = None
         if '--replay' in sys.argv:
             self.replay_arg = sys.argv[sys.argv.index('--replay') + 1]
+        design_session()
 
     def thorough(self):
         return self.tier == 'thorough'
